@@ -15,18 +15,24 @@ type RouteParam struct {
 
 // RouteTruth is what one registration was meant to be.
 type RouteTruth struct {
-	Verb        string       `json:"verb"`
-	URL         string       `json:"url"`
-	Handler     string       `json:"handler"` // "" for function literals (any Anonymous<digits> name)
-	HandlerForm string       `json:"handler_form"`
-	PathForm    string       `json:"path_form"`
-	Input       string       `json:"input"`  // bound type, "" if none
-	Return      string       `json:"return"` // returned type, "" if none
-	Blob        bool         `json:"blob"`
-	Query       []RouteParam `json:"query"`
-	FormValues  []string     `json:"form_values"`
-	FormFile    string       `json:"form_file"`
-	FormJSON    *RouteParam  `json:"form_json,omitempty"`
+	Verb        string `json:"verb"`
+	URL         string `json:"url"`
+	Handler     string `json:"handler"` // "" for function literals (any Anonymous<digits> name)
+	HandlerForm string `json:"handler_form"`
+	PathForm    string `json:"path_form"`
+	Input       string `json:"input"`  // bound type, "" if none
+	Return      string `json:"return"` // returned type, "" if none
+	Blob        bool   `json:"blob"`
+	// a handler with two success returns of different kinds (one in a branch, one at the end): the statement
+	// does not say which one is THE return, so either is accepted - but the type and the blob flag must
+	// describe the same return statement
+	HasAlt     bool         `json:"has_alt,omitempty"`
+	AltReturn  string       `json:"alt_return,omitempty"`
+	AltBlob    bool         `json:"alt_blob,omitempty"`
+	Query      []RouteParam `json:"query"`
+	FormValues []string     `json:"form_values"`
+	FormFile   string       `json:"form_file"`
+	FormJSON   *RouteParam  `json:"form_json,omitempty"`
 }
 
 type RoutesTruth struct {
@@ -71,7 +77,8 @@ type routeGen struct {
 	idType    string
 	twinNames []string
 	// noInts: no plain integer anywhere (fields, parameters) except as the KEY of a returned map
-	noInts bool
+	noInts    bool
+	mixedSeen bool
 }
 
 type routeType struct {
@@ -286,6 +293,9 @@ func NewRouteProg(idx int, r *rand.Rand, c14 bool) *Program {
 		src.WriteString("}\n\n")
 		p.Feature("route:two-registration-functions-same-local-const-name")
 	}
+	if g.mixedSeen {
+		p.Feature("route:two-return-kinds")
+	}
 	src.WriteString("func main() { fmt.Println(\"routes\") }\n")
 
 	innerSrc := "// Package inner holds handlers declared in another package.\npackage inner\n\nimport (\n\t\"fmt\"\n\n\t\"" + pkgPath + "/echo\"\n)\n\nconst Url = \"/const_url_from_inner_package/\"\n\ntype Controller struct{}\n\nfunc (Controller) HandleExt(c echo.Context) error {\n\tvar in []int64\n\tt, v := c.QueryParam(\"query1\"), c.QueryParam(\"query2\")\n\terr := c.Bind(&in)\n\t_ = fmt.Errorf(\"%s%s%s\", t, v, err)\n\tvar out map[string][]int\n\treturn c.JSON(200, out)\n}\n\nfunc TopLevel(c echo.Context) error {\n\treturn nil\n}\n"
@@ -411,11 +421,21 @@ func (g *routeGen) handlerBody(rt *RouteTruth, c string, c14, plain bool) string
 	if g.noInts && ret == 1 {
 		ret = 3 // no []byte blob (printed with the integer alias)
 	}
+	// two success returns of different kinds (C13 only: the TypeScript client of C14 has one return shape)
+	mixed := !c14 && !g.noInts && g.pr(0.2)
+	if mixed {
+		g.mixedSeen = true
+	}
 	switch ret {
 	case 0:
 		sb.WriteString("return nil\n")
 	case 1:
 		sb.WriteString("var output []byte\n")
+		if mixed {
+			t := g.types[g.r.Intn(len(g.types))]
+			fmt.Fprintf(&sb, "if len(output) > 3 {\n\tvar early %s\n\treturn %s.JSON(200, early)\n}\n", t.expr, c)
+			rt.HasAlt, rt.AltReturn, rt.AltBlob = true, t.str, false
+		}
 		fmt.Fprintf(&sb, "return %s.Blob(200, \"\", output)\n", c)
 		rt.Return, rt.Blob = "[]byte", true
 	case 2:
@@ -428,7 +448,12 @@ func (g *routeGen) handlerBody(rt *RouteTruth, c string, c14, plain bool) string
 		rt.Return = t.str
 	default:
 		t := g.types[g.r.Intn(len(g.types))]
-		fmt.Fprintf(&sb, "var out %s\nreturn %s.JSON(200, out)\n", t.expr, c)
+		fmt.Fprintf(&sb, "var out %s\n", t.expr)
+		if mixed {
+			fmt.Fprintf(&sb, "if fmt.Sprint(out) == \"download\" {\n\tvar file []byte\n\treturn %s.Blob(200, \"\", file)\n}\n", c)
+			rt.HasAlt, rt.AltReturn, rt.AltBlob = true, "[]byte", true
+		}
+		fmt.Fprintf(&sb, "return %s.JSON(200, out)\n", c)
 		rt.Return = t.str
 	}
 	return sb.String()
